@@ -217,6 +217,16 @@ def run(prop, cases, flavours_mode="reference", timeout_ms=20000, jobs=16, run_n
             continue
         stats.projects_ok += 1
         locales = h["locales"]
+        if flavours_mode == "pairwise":
+            # scoping: the keys a scope builds (LocaleKeys::from_locale of the nested keys type) vs the accessor chain
+            for note in h.get("notes", []):
+                if note.startswith("scope-ok"):
+                    stats.scope_ok = getattr(stats, "scope_ok", 0) + 1
+                elif note.startswith("scope-differs"):
+                    pth = note.split()[1].rstrip(":").split(".")
+                    findings.append(Finding(prop, "scoped_keys_differ", c, key=pth, detail=note, role="scoping", hk={"path": pth}))
+                elif note.startswith("scope-unknown"):
+                    stats.inconclusive.append((c.tag, note))
         for (ns, path), ref in refs.items():
             hk = host_key(h, ns, path)
             role = c.roles.get((ns, path)) or c.roles.get("*")
